@@ -1434,7 +1434,16 @@ class LegCharge:
 
         """
         perm_flat = np.asarray(perm_flat)
-        perm_qind = perm_flat[self.slices[:-1]]
+        # the first index of each permuted block identifies the (old) qindex of that block
+        perm_qind = []
+        start = 0
+        while start < len(perm_flat):
+            qind = self.get_qindex(perm_flat[start])[0]
+            perm_qind.append(qind)
+            start += self.slices[qind + 1] - self.slices[qind]
+        perm_qind = np.array(perm_qind, dtype=np.intp)
+        if len(perm_qind) != self.block_number:
+            raise ValueError('Permutation mixes qind')
         # check if perm_qind indeed resembles the permutation
         if np.any(perm_flat != self.perm_flat_from_perm_qind(perm_qind)):
             raise ValueError('Permutation mixes qind')
